@@ -59,11 +59,11 @@ def rate_ok(fmt, sr, got):
         if mj == 0x04:
             return True        # RAW has no header: the caller supplies the rate
         return got == sr
-    if mj in (0x06, 0x21):     # SVX, MPC2K: 16-bit field
-        return got == sr if sr < 65536 else True
+    if mj in (0x06, 0x21):     # SVX, MPC2K: 16-bit field, saturating (KF-RATE16-WRAP repaired)
+        return got == min(sr, 65535)
     if mj == 0x0A:             # IRCAM: float32 field
         import struct
-        return got == int(struct.unpack("<f", struct.pack("<f", float(sr)))[0]) if sr < 2**31 - 64 else True
+        return got == (int(struct.unpack("<f", struct.pack("<f", float(sr)))[0]) if sr < 2**31 - 64 else 2**31 - 128)   # capped below 2^31 (KF-C10-ircam-rate repaired)
     if mj in (0x10, 0x11):     # HTK, SDS: sample period
         return abs(got - sr) <= max(1, sr * sr // 10**7 + 1) if mj == 0x10 else abs(got - sr) <= max(1, sr * sr // 10**9 + 1)
     if mj == 0x08:             # VOC: divisor
